@@ -751,7 +751,12 @@ def may_reach(body, targets, decide, start=0, avoid=(), cap=40000):
                 tt, ft = switch_targets_bool(t)
                 allowed = [tt] if facts[pl[0]] else [ft]
         elif t["k"] == "call" and t.get("dest") and not t["dest"][1]:
-            facts.pop(t["dest"][0], None)
+            cv = getattr(decide, "call_value", None)
+            v = cv(b, t) if cv is not None else None
+            if v is None:
+                facts.pop(t["dest"][0], None)
+            else:
+                facts[t["dest"][0]] = bool(v)  # a test whose outcome the assumption fixes, stored before it is branched on
         nst = frozenset(facts.items())
         for s in body.succs(b):
             if allowed is None or s in allowed:
@@ -796,6 +801,17 @@ def option_assumption(body, assume):
                 return [tt] if truth else [ft]
         return None
 
+    def call_value(bb, t):
+        if "fn" not in t or not t.get("args"):
+            return None
+        last = Callee(t["fn"]).path
+        if last in ("std::option::Option::<T>::is_some", "std::option::Option::<T>::is_none"):
+            v = src(t["args"][0])
+            if v is not None:
+                return (v == 1) == last.endswith("is_some")
+        return None
+
+    decide.call_value = call_value
     return decide
 
 
@@ -926,6 +942,7 @@ def call_result_assumption(body, assume):
             return [tt] if truth else [ft]
         return None
 
+    decide.call_value = lambda bb, t: fixed.get(bb)
     return decide
 
 
